@@ -294,6 +294,12 @@ fn main() {
         std::panic::set_hook(Box::new(|_| {}));
     }
     let args: Vec<String> = std::env::args().collect();
+    if matches!(args.get(1).map(|s| s.as_str()), Some("worker") | Some("exec-case")) {
+        // never outlive the process that started us (a case may loop forever)
+        unsafe {
+            let _ = prctl(1 /* PR_SET_PDEATHSIG */, 9 /* SIGKILL */, 0, 0, 0);
+        }
+    }
     if args.get(1).map(|s| s.as_str()) == Some("worker") && std::env::var("VERIF_KEEP_MALLOC").is_err() {
         // a worker process has one active thread at a time: one arena, never trimmed, so that a
         // fresh thread per run does not mean fresh heap pages per run. Performance only.
@@ -306,10 +312,26 @@ fn main() {
     if args.len() < 2 {
         harness_error("usage: cedar-sim run <world|ID> <quick|thorough> | replay <file> | digest <world> <n> <workers>");
     }
+    // cedar code runs on the main thread while warming up; if it does not come back, say so
+    // instead of hanging (exit 2: nothing was decided)
+    let warm_done = Arc::new(std::sync::atomic::AtomicBool::new(false));
+    {
+        let wd = warm_done.clone();
+        std::thread::spawn(move || {
+            for _ in 0..600 {
+                std::thread::sleep(std::time::Duration::from_millis(500));
+                if wd.load(std::sync::atomic::Ordering::SeqCst) {
+                    return;
+                }
+            }
+            harness_error("warm-up did not finish within 300 s: cedar code hangs on one of the harness's own fixed documents");
+        });
+    }
     // a panic while warming up (cedar code on the main thread) is reported, never silent
     if let Err(p) = std::panic::catch_unwind(warm_up) {
         harness_error(&format!("panic during warm-up (cedar code run on the main thread panicked): {}", hashseam::panic_message(&p)));
     }
+    warm_done.store(true, std::sync::atomic::Ordering::SeqCst);
     let code = match args[1].as_str() {
         "run" => {
             let tier = match args.get(3).map(|s| s.as_str()) {
